@@ -3,6 +3,7 @@ package harness
 import (
 	"bytes"
 	"fmt"
+	"os"
 	"sync"
 
 	"github.com/quickfixgo/quickfix"
@@ -124,5 +125,81 @@ func c09APIProbe(env *Env, b []byte, variant int) {
 				return
 			}
 		}
+	}
+}
+
+// c09TextProbe hands damaged settings text and damaged dictionary XML to the loaders (the statement's
+// "loading any settings or dictionary text"). Pure functions as well; they ride along like the parse probe.
+var (
+	c09XMLOnce sync.Once
+	c09XML     map[string][]byte
+)
+
+func c09TextProbe(env *Env) {
+	ch := env.Ch
+	c09XMLOnce.Do(func() {
+		c09XML = map[string][]byte{}
+		for _, n := range []string{"FIX40", "FIXT11"} { // the small ones: a load costs a few ms
+			if b, err := os.ReadFile("/repo/spec/" + n + ".xml"); err == nil {
+				c09XML[n] = b
+			}
+		}
+	})
+	damage := func(src []byte) []byte {
+		b := append([]byte(nil), src...)
+		for k := 1 + ch.Choose("textedits", 3); k > 0 && len(b) > 4; k-- {
+			i := ch.Choose("textpos", len(b)-2)
+			switch ch.Choose("textedit", 6) {
+			case 0:
+				b[i] ^= 1 << uint(ch.Choose("bit", 8))
+			case 1:
+				b = append(b[:i], b[i+1+ch.Choose("dellen", min(40, len(b)-i-1)):]...)
+			case 2:
+				b = append(b[:i], append([]byte(`"<>&=#[]`)[ch.Choose("ins", 8):][:1], b[i:]...)...)
+			case 3:
+				b = b[:i]
+			case 4: // duplicate a stretch
+				j := min(len(b), i+1+ch.Choose("duplen", 60))
+				b = append(b[:j], append(append([]byte(nil), b[i:j]...), b[j:]...)...)
+			case 5: // swap in a value that is empty or absurd
+				b = append(b[:i], append([]byte(`=""`), b[i:]...)...)
+			}
+		}
+		return b
+	}
+	guard := func(what string, in []byte, f func()) {
+		defer func() {
+			if r := recover(); r != nil {
+				env.Violate("C09/api-panic", "%s panicked on %q: %v", what, clip(in), r)
+			}
+		}()
+		f()
+	}
+	settings := []byte("[DEFAULT]\nConnectionType=acceptor\nSocketAcceptPort=5001\nHeartBtInt=30\nStartTime=00:00:00\nEndTime=00:00:00\n# comment\n\n[SESSION]\nBeginString=FIX.4.2\nSenderCompID=ENG\nTargetCompID=PEER\nResetOnLogon=Y\n\n[SESSION]\nBeginString=FIXT.1.1\nDefaultApplVerID=9\nSenderCompID=ENG\nTargetCompID=PEER2\nSessionQualifier=q\nStartDay=Monday\nEndDay=Fri\nTimeZone=America/New_York\n")
+	in := damage(settings)
+	guard("ParseSettings", in, func() {
+		if st, err := quickfix.ParseSettings(bytes.NewReader(in)); err == nil {
+			st.GlobalSettings()
+			for _, ss := range st.SessionSettings() {
+				ss.HasSetting("HeartBtInt")
+				ss.IntSetting("HeartBtInt")
+				ss.BoolSetting("ResetOnLogon")
+				ss.DurationSetting("HeartBtInt")
+			}
+		}
+	})
+	env.Stat("probe_api_settings_text")
+	if env.Failed() {
+		return
+	}
+	name := []string{"FIX40", "FIXT11"}[ch.Choose("xmlfile", 2)]
+	if src := c09XML[name]; src != nil {
+		x := damage(src)
+		guard("datadictionary.ParseSrc", x[:min(len(x), 400)], func() {
+			if dd, err := datadictionary.ParseSrc(bytes.NewReader(x)); err == nil && dd != nil {
+				_ = dd.FieldTypeByTag
+			}
+		})
+		env.Stat("probe_api_dictionary_text")
 	}
 }
